@@ -29,7 +29,7 @@ CHECKS = {
             'bytes on RTU), all 65536 registers x boundary values and all 65536 values x boundary registers for '
             'write echoes, AA55 payload length 0..255 x fill 0..255 per response type must make the real validator '
             'return True; representatives go through the real transports and response_data() must equal the payload; a '
-            'conforming frame must also be accepted after an earlier request lost the remainder of a fragmented answer.',
+            'conforming frame must also be accepted after an earlier request lost the remainder of a fragmented answer. Every public call against healthy conforming inverter models of all families must succeed (no conforming answer refused); session histories incl. chained requests: a first transmission answered by a conforming frame needs no second one.',
             'Trusted: frame builders of mc/wire.py.  Uniform and walking-one payloads only (the validators do not read '
             'payload bytes except through the checksum).',
             'DESIGN.md section 3, C02'),
@@ -40,7 +40,7 @@ CHECKS = {
             'space of the Modbus/TCP transaction counter (65534 states and the wrap) is walked completely from the '
             'initial and from near-wrap states; a silent TCP peer must see pairwise different ids on retransmissions; requests '
             'built through read_command / write_command / write_multi_command of 8 coexisting protocol objects (udp, tcp x '
-            '4 addresses), interleaved, decode to the address and arguments of the call that built them.',
+            '4 addresses), interleaved, decode to the address and arguments of the call that built them. Every command kind (three framings, raw caller frames) is sent through both transports: the bytes on the wire are the command\'s request.',
             'Trusted: strict parsers of mc/wire.py.  Grids are per-dimension exhaustive, not the full cartesian product.',
             'DESIGN.md section 3, C03'),
     'C04': ('model_checking',
@@ -102,7 +102,7 @@ CHECKS = {
             'request must fail with RequestRejectedException carrying the reason text of the Modbus specification, '
             'at the arrival time of the frame, with no further transmission - also when earlier requests (successes, delayed '
             'rejections, fragments, garbage) precede it on the same object; ET callers are run against a device refusing '
-            'blocks with code 2 versus other codes (only code 2 may switch a capability off).',
+            'blocks with code 2 versus other codes (only code 2 may switch a capability off). Two protocol objects with overlapping requests; histories in which the same exception frame is received twice; chained requests.',
             'Trusted: reason table in mc/wire.py (written from the Modbus spec), kernel model.',
             'DESIGN.md section 3, C08'),
     'C09': ('model_checking',
@@ -124,7 +124,7 @@ CHECKS = {
             '(open transports <= 1; none open after a request with keep-alive off or after close(); same socket '
             'reused by consecutive successes with keep-alive on) is evaluated at every transmission, connect and '
             'operation boundary, and every history ends with a healthy request that must succeed with one '
-            'transmission; at descriptor level, after garbage collection every open socket must belong to an open transport.',
+            'transmission; at descriptor level, after garbage collection every open socket must belong to an open transport. History letters: keep-alive toggled between requests, previous loop left open (idle); chained requests.',
             'Trusted: kernel model; transports are observed through is_closing() of the real transport objects the '
             'loop created.  Bounded by history depth 3 (quick) / 4 (thorough).',
             'DESIGN.md section 3, C10'),
@@ -146,7 +146,7 @@ CHECKS = {
             'block start addresses and both Modbus framings (Modbus/TCP also with an unreliable MBAP length field: byte count only / 0) and compared with a reference decoder written per type from '
             'the documentation; every other byte of the block is then perturbed and the value must not change; whole tables with '
             'uniform contents are decoded in one process in table order and reverse order (state shared between sensors).  The '
-            'register map itself (id -> type, address, scale, unit) is compared with a pinned copy.',
+            'register map itself (id -> type, address, scale, unit) is compared with a pinned copy. End to end: read_runtime_data() / read_sensor() / read_setting() results of configured objects (every model class) equal the documented reading of the device model\'s registers - with debug logging on and off, with a neighbour object of another model class, and while other calls on the same object are pending; the reference decoders agree with the 1310 (sensor, value) pairs the repository tests assert on recorded responses.',
             'Trusted: mc/refdec.py, the pinned register map mc/data/address_map.json (taken from the tables at the pinned '
             'commit; it stands in for the vendor register documentation).',
             'DESIGN.md section 3, C12'),
@@ -157,7 +157,7 @@ CHECKS = {
             'code words (boundary-grid products for formulas) and compared with its definition over the raw values of the '
             'same result; which documented label table each label sensor uses is pinned; the same relations are evaluated '
             'inside every read_runtime_data() result of configured inverter objects (every tag class x rated powers x '
-            'firmware) polled over a grid of the power words and their neighbours.',
+            'firmware) polled over a grid of the power words and their neighbours. The relations are also evaluated inside read_runtime_data() results of configured objects (with neighbour objects), and every formula with the other registers of the block holding uniform small codes.',
             'Trusted: formulas written from the table comments / property text in mc/checks/c13.py, pinned label tables '
             'mc/data/labels.json.  One genuine defect is recorded as a known finding (EnumBitmap22).',
             'DESIGN.md section 3, C13'),
@@ -167,7 +167,7 @@ CHECKS = {
             'read_runtime_data() runs against the device model while every ProtocolResponse.read is observed '
             '(position, requested, returned); every read must return exactly the bytes requested.  The same is computed '
             'statically (documented sensor span versus the window of the request that fetched it) and both must agree; over '
-            'tcp the device model also answers with unreliable MBAP length fields (byte count, 0, 6, +7).',
+            'tcp the device model also answers with unreliable MBAP length fields (byte count, 0, 6, +7). Second model detection on the same object (failing, partly lost, repeated).',
             'Trusted: device model answers with exact-length frames; documented type sizes of mc/refdec.py.  Two sensors '
             'of the MPPT block are recorded as known findings.',
             'DESIGN.md section 3, C14'),
@@ -177,7 +177,7 @@ CHECKS = {
             'optional blocks x battery present/absent x three consecutive calls, over UDP and a reduced product over TCP: '
             'read_runtime_data() must succeed by the second call, its keys must equal the ids of sensors() right after '
             'the call, fetched blocks must be present and refused blocks absent; the device also checks that every '
-            'request parses strictly and that no write function is sent.',
+            'request parses strictly and that no write function is sent. With an unchanged device every returning call reports the same ids.',
             'Trusted: device model mc/devsim.py (refused ranges answer exception 2).',
             'DESIGN.md section 3, C15'),
     'C16': ('model_checking',
@@ -185,7 +185,7 @@ CHECKS = {
             'For representative models of every predicate class and several register-file fills, after every history of '
             'runtime reads, single reads and device changes (battery appears/disappears, blocks become refused) up to the '
             'depth bound, read_sensor(id) is called for every id of sensors() and compared with the bulk read of the '
-            'unchanged registers; a listed id that the bulk read reports must never be unknown to read_sensor.',
+            'unchanged registers; a listed id that the bulk read reports must never be unknown to read_sensor. Histories include device changes no poll has noticed yet and changing register contents between polls.',
             'Trusted: device model; register file static between single and bulk read.  Sensors without a single-read '
             'path (Calculated, EnumCalculated, EnumBitmap22) are recorded as known findings.',
             'DESIGN.md section 3, C16'),
@@ -207,7 +207,7 @@ CHECKS = {
             'work modes, plus connect()/discover(): the device model must see only read functions.  Every integer '
             'argument in wide windows round each setter guard and near-miss setting ids must transmit no write (and '
             'raise ValueError where documented); in-range arguments are checked to produce writes (vacuity guard); over '
-            'Modbus/TCP with one retry, [setter, monitoring call] with every connection attempt refused once.',
+            'Modbus/TCP with one retry, [setter, monitoring call] with every connection attempt refused once. Ids no longer listed by settings() must not be writable; invalid calls after every legal setter and monitoring call; raw register ids over the whole range; connect refusal between setter and reader.',
             'Trusted: device model request log (strict parser).',
             'DESIGN.md section 3, C18'),
     'C19': ('model_checking',
@@ -227,7 +227,7 @@ CHECKS = {
             'register contents on one real event loop; whenever both wait for an answer the explorer chooses whose answer '
             'is delivered first (deviation-bounded from FIFO).  Each object must send the same requests and return the same '
             'results as when its calls run alone, and every value handed to the caller is re-snapshotted at the end and '
-            'must be unchanged.',
+            'must be unchanged. The two inverters of a pair report a valid and an undecodable clock.',
             'Trusted: device models, gate in mc/checks/c20.py (answers are released only when every task is blocked). '
             'Shared stateful schedule sensors are recorded as known findings.',
             'DESIGN.md section 3, C20'),
